@@ -20,6 +20,8 @@ type An struct {
 	R *Report
 	// atomicMask: which origins of a failure AtomicScan pairs writes with (0: validation of the input)
 	atomicMask Origin
+	effFns     map[*ssa.Function][]string
+	gateFn     map[string]string
 }
 
 type propFn func(a *An)
@@ -160,6 +162,8 @@ func main() {
 			an.closedTables(id)
 			an.closedEvents(id)
 			an.closedStateCallers(id)
+			an.closedGates(id)
+			an.closedEraseSites(id)
 			r.Extra["configurations"] = appendStr(r.Extra["configurations"], cfgName)
 			r.Extra["functions_analysed"] = len(c.FuncSeq)
 			r.Extra["callgraph_nodes"] = len(c.CG.Nodes)
